@@ -284,6 +284,12 @@ def run_slice(job: dict) -> dict:
             scn_n["inject_events"] = []
             scn_n["sims"] = [dict(s, beh=dict(s["beh"], set_events={"*": [-1]})) if s["sid"] == scn["sims"][0]["sid"] else s
                              for s in scn["sims"]]
+            if (i // 8) % 2:
+                # ... also for an event at or after the end
+                big = scn["until"] + 1 + (i % 3)
+                scn_n["sims"] = [dict(s_, beh=dict(s_["beh"], set_events={"*": [big]})) if s_["sid"] == scn["sims"][0]["sid"] else s_
+                                 for s_ in scn_n["sims"]]
+                C["set_event_without_rt_beyond_until"] += 1
             trn = run_case(scn_n, sched)
             res["evaluations"] += 1
             C["set_event_without_rt"] += 1
